@@ -32,7 +32,8 @@ EDGE = [
     "int f(int = );\n", "int f(int a = (1, );\n", "int f(...", "auto f() -> ;\n", "decltype( x;\n", "sizeof(;\n", "static_assert(;\n", "static_assert(1/0, \"\");\n", "alignas( int x;\n", "[[", "__attribute__((",
     "struct S { MAKE_PROPERTY(a, ); };\n", "struct S { MAKE_SEQ(a, b, ); };\n", "struct S {\n__published:\n MAKE_PROPERTY(x, get_x, set_x);\n};\n", "struct S { __published: MAKE_SEQ(xs, get_num_x, get_x); };\n",
     "template<class T> struct A { typename T::x y; }; A<int> a;\n", "template<int N> struct F { enum { v = N * F<N-1>::v }; }; int x = F<5>::v;\n", "template<class T> struct A : A<T*> {}; A<int> a;\n",
-    "template<class... T> struct V { V<T..., int> *n; }; V<> v;\n", "struct A { A a; };\n", "struct A; struct B { A a; };\n", "typedef struct A A; struct A { A *a; };\n", "enum class E : E {};\n", "int x = x;\n", "int x = sizeof(x)/0;\n",
+    "template<class... T> struct V { V<T..., int> *n; }; V<> v;\n", "template<int N> struct F { enum { v = F<N-1>::v }; static const int x = F<5>::v; };\n",
+    "template<int N> struct F { enum { v = N * F<N-1>::v }; int x = F<5>::v; };\n", "template<class T> struct G { typedef typename G<T*>::t t; t x; };\nG<int>::t y;\n", "struct A { A a; };\n", "struct A; struct B { A a; };\n", "typedef struct A A; struct A { A *a; };\n", "enum class E : E {};\n", "int x = x;\n", "int x = sizeof(x)/0;\n",
     "\x00", "\xff\xfe", "int \xc3\xa9 = 1;\n", "int x;\x00int y;\n", "\r", "int x;\r\nint y;\r\n", "\x1a",
 ]
 
